@@ -27,7 +27,8 @@ def run(tier, replay=None):
     cases = R.run_instances(run, "c17_" + tier, instances(tier), R.has_roll)
     # the first records arrive simultaneously from several threads (released by a barrier)
     for mn in (0, 1, 2):
-        R.concurrent_traces(run, "c17", "startup", mn, 60 if tier == "quick" else 1500)
+        # the first scenario of each batch is one long lifetime (4 threads x 80 / 600 records)
+        R.concurrent_traces(run, "c17", "startup", mn, 60 if tier == "quick" else 1500, long=80 if tier == "quick" else 600)
     if not run.mismatches and run.nontrivial < 50:
         raise C.ToolError("vacuous run")
     run.exhaustive = True
@@ -38,6 +39,6 @@ def run(tier, replay=None):
     run.rule += ("; plus seeded scenarios of 2-4 real threads released together by a barrier, each appending 1-3 records "
                  "over pre-existing files of -/0/1/2/3 units with min_size 0/1/2: the trace (start / end events emitted "
                  "under the appender's mutex, directory parsed at the end of every append) is validated against "
-                 "Rolling.tla with TLC")
+                 "Rolling.tla with TLC; one scenario per batch is a long lifetime of 320 (quick) / 2400 (thorough) records")
     run.assumptions = ["thread schedules are sampled (barrier + seeded yields), not enumerated"]
     return run.finish()
